@@ -27,6 +27,23 @@ func genFactsImpl(p *pkgInfo, out string) {
 	var edges []edge
 	var atomics []write // fn, what ("Load","Store","copy"), detail
 	var argFacts []write
+	var gwrites []write // fn, kind (assign / index / delete / field / incdec), name of the package-level variable
+
+	// the package-level variable an expression is rooted in ("" when it is not)
+	var globalRoot func(e ast.Expr) string
+	globalRoot = func(e ast.Expr) string {
+		switch x := e.(type) {
+		case *ast.Ident:
+			if v, ok := p.info.Uses[x].(*types.Var); ok && v.Pkg() == p.pkg && v.Parent() == p.pkg.Scope() {
+				return x.Name
+			}
+		case *ast.ParenExpr:
+			return globalRoot(x.X)
+		case *ast.StarExpr:
+			return globalRoot(x.X)
+		}
+		return ""
+	}
 
 	nodeType := p.pkg.Scope().Lookup("Node").Type()
 	isNode := func(t types.Type) bool {
@@ -155,6 +172,21 @@ func genFactsImpl(p *pkgInfo, out string) {
 			}
 		}
 		recordAssign := func(lhs ast.Expr, rhs ast.Expr) {
+			// writes to package-level state: the variable itself, an entry of a package-level map/slice, a field of a package-level struct
+			switch l := lhs.(type) {
+			case *ast.Ident:
+				if g := globalRoot(l); g != "" {
+					gwrites = append(gwrites, write{name, "assign", g})
+				}
+			case *ast.IndexExpr:
+				if g := globalRoot(l.X); g != "" {
+					gwrites = append(gwrites, write{name, "index", g})
+				}
+			case *ast.SelectorExpr:
+				if g := globalRoot(l.X); g != "" {
+					gwrites = append(gwrites, write{name, "field", g})
+				}
+			}
 			switch l := lhs.(type) {
 			case *ast.SelectorExpr:
 				if isNode(p.info.TypeOf(l.X)) {
@@ -209,6 +241,9 @@ func genFactsImpl(p *pkgInfo, out string) {
 					switch f.Name {
 					case "delete":
 						if len(s.Args) == 2 {
+							if g := globalRoot(s.Args[0]); g != "" {
+								gwrites = append(gwrites, write{name, "delete", g})
+							}
 							if sel, ok := s.Args[0].(*ast.SelectorExpr); ok && isNode(p.info.TypeOf(sel.X)) {
 								writes = append(writes, write{name, sel.Sel.Name + "[]", originOf(sel.X, body, params)})
 							}
@@ -371,6 +406,9 @@ func genFactsImpl(p *pkgInfo, out string) {
 	for _, b := range bwrites {
 		nameSet[b.fn] = true
 	}
+	for _, g := range gwrites {
+		nameSet[g.fn] = true
+	}
 	var names []string
 	for n := range nameSet {
 		names = append(names, n)
@@ -402,6 +440,11 @@ func genFactsImpl(p *pkgInfo, out string) {
 	emit("atomicUsesN", "Nat × String × String", "atomicUses with the function by number", asN)
 	emit("callEdges", "String × String", "static call edges (methods as Type.Name; registry members as functions[name]; calls through function-typed variables as var:name)", es)
 	emit("callEdgesN", "Nat × Nat", "callEdges by number", esN)
+	var gws []string
+	for _, g := range gwrites {
+		gws = append(gws, fmt.Sprintf("(%d, %s, %s, %s)", id[g.fn], leanStr(g.fn), leanStr(g.field), leanStr(g.origin)))
+	}
+	emit("globalWrites", "Nat × String × String × String", "(function number, function, assign / index / field / delete, package-level variable written)", gws)
 	emit("constructorArgs", "String × String × String", "(caller, ArrayNode/ObjectNode, text of the node-list argument)", gs)
 	l.finish(filepath.Join(out, "Effects.lean"))
 }
